@@ -246,6 +246,8 @@ def mk_stat_cmp(ctx, n):
         cls = parse_intm(parts["cls"])
         q = parse_ratm(parts["q"])
         rows = [[unfx(t) for t in r.split(",")] for r in impl.split(";")]
+        if parts.get("closed") != "1":
+            return "model's closedness certificate failed for its own classes %s" % cls
         if len(rows) != len(cls):
             return "number of rows differs: model %d code %d" % (len(cls), len(rows))
         for C, qr, xr in zip(cls, q, rows):
@@ -281,7 +283,7 @@ def run(ctx):
     g = Gen(ctx)
     rng = ctx.rng
     cases = []
-    nmax = ctx.n(8, 10)
+    nmax = ctx.n(8, 12)
     ctx.rule = ("random stochastic matrices n=1..%d with planted block structure (1-4 recurrent classes, cyclic / dense / "
                 "mixed, transient states in between, random state order), entries dyadic / small-integer ratios / nearly "
                 "decomposable (down to 1e-12); generator and general Metzler matrices; each through gth_solve with "
@@ -420,8 +422,42 @@ def run(ctx):
         do_gth(np.array(A, dtype=float), "fixed")
         do_stat(np.array(A, dtype=float), "fixed")
 
+    # corpus files: one case per line, `stat <rows>` / `gth <rows>` (entries as decimal or p/q), or
+    # `csr <n> | <data> | <indices> | <indptr>` (a CSR representation, stored zeros allowed)
+    cdir = ctx.corpus_dir
+    for fn in sorted(os.listdir(cdir)) if os.path.isdir(cdir) else []:
+        if not (fn.startswith("c02_") and fn.endswith(".txt")):
+            continue
+        for line in open(os.path.join(cdir, fn)):
+            line = line.split("#")[0].strip()
+            if not line:
+                continue
+            kind, rest = line.split(" ", 1)
+            ctx.count("corpus:" + kind)
+            if kind in ("stat", "gth"):
+                A = np.array([[float(Fraction(t)) for t in r.split(",")] for r in rest.split(";")], dtype=float)
+                do_gth(A, "corpus")
+                if kind == "stat":
+                    do_stat(A, "corpus")
+            elif kind == "csr":
+                n_s, d_s, i_s, p_s = [t.strip() for t in rest.split("|")]
+                n = int(n_s)
+                data = [float(Fraction(t)) for t in d_s.split(",")]
+                Psp = sp.csr_matrix((np.array(data), np.array([int(t) for t in i_s.split(",")], dtype=np.int32),
+                                     np.array([int(t) for t in p_s.split(",")], dtype=np.int32)), shape=(n, n))
+                A = Psp.toarray()
+                Fd = frm(A)
+                classes, _ = rec_classes(Fd)
+                S = MarkovChain(Psp).stationary_distributions
+                _, rows = rows_str(S)
+                ok = len(rows) == len(classes) and all(
+                    check_row(x, Fd, c, exact_null(Fd, c), tol_for(n)) is None for x, c in zip(rows, classes))
+                if not ok:
+                    ctx.spec_fail("csr_stored_zero", "corpus CSR input: rows %s for recurrent classes %s" % (
+                        np.asarray(S).tolist(), classes), {"op": "stat-csr", "line": line})
+
     # ---- random stochastic matrices ------------------------------------------------------------
-    N = ctx.n(110, 900)
+    N = ctx.n(400, 4000)
     for it in range(N):
         n = rng.randint(1, nmax) if it % 3 else rng.randint(max(1, nmax - 3), nmax)
         F, planted, style = g.chain(n)
@@ -444,7 +480,7 @@ def run(ctx):
                 ctx.spec_fail("gth_generator", "gth_solve(c(P-I)) differs from gth_solve(P)", {"P": fxm(A), "c": c})
 
     # ---- >= 3 classes with transient states, every run -------------------------------------------
-    for it in range(ctx.n(25, 200)):
+    for it in range(ctx.n(100, 800)):
         n = rng.randint(5, nmax)
         F, planted, style = g.chain(n, nclasses=rng.choice([3, 3, 4]))
         A = to_np(F)
@@ -452,7 +488,7 @@ def run(ctx):
         do_stat(A, "multi")
 
     # ---- general Metzler matrices (rate matrices with arbitrary diagonal) -------------------------
-    for it in range(ctx.n(50, 400)):
+    for it in range(ctx.n(200, 1600)):
         n = rng.randint(1, nmax)
         A = to_np(g.metzler(n))
         do_gth(A, "metzler")
@@ -524,7 +560,7 @@ def run(ctx):
     # ---- CSR input with explicitly stored zeros ------------------------------------------------------------
     # The same stochastic matrix, another (legal) CSR representation: entries that are 0.0 but present in the
     # structure.  The answer must not depend on it.
-    for it in range(ctx.n(12, 60)):
+    for it in range(ctx.n(40, 300)):
         n = rng.randint(2, min(6, nmax))
         F, planted, style = g.chain(n, style="dyadic", nclasses=rng.choice([1, 2, 2, 3]))
         A = to_np(F)
